@@ -71,19 +71,21 @@ CLAIMED = {
 # Rules added after the first version of the table (rounds 2 and 3 of the sub-agent experiments); appended to
 # the level text so that the manifest names what is decided today.
 ADDENDA = {
+ "C04": " Also decided: the clock is read and the replay filter consulted in one critical section (defect F9 was found here and fixed): simultaneous handshakes reach the filter in the order of their time stamps.",
+ "C11": " Also decided: compactFilter is left only when the list is exhausted, after a reset, or at an entry younger than the TTL (no memoised early exit); explicit-unlock critical sections are recognised.",
  "C01": " Also decided: a well-formed packet (3 <= n <= 1427, length <= n-3) is never rejected by the reader; chopping by a loop-carried offset is recognised; the distributions shared by the reader and writer goroutines are sampled and re-seeded in one critical section each (C12's lock rule, as R9).",
- "C02": " Also decided: no hash/cipher/buffer object of the handshake code is a package-level variable (shared by concurrent connections).",
- "C05": " Also decided: no hash/cipher/buffer object of the frame code is a package-level variable.",
+ "C02": " Also decided: no hash/cipher/buffer object of the handshake code is a package-level variable (shared by concurrent connections). All ntor terms (status per exponent, KEY_SEED and AUTH as functions of the secret input) are compared with the spec, not only the status.",
+ "C05": " Also decided: no hash/cipher/buffer object of the frame code is a package-level variable. The framing rules of C06.R3 (nonce = prefix | full 64-bit counter, counter start, wrap refusal, key-block layout) are imported as RN3.",
  "C06": " Also decided: the accept side of the packet reader (no well-formed packet rejected, including the header-only packet); the hour the reply and the verification are bound to (C04's hour rules, imported as RH2/RH5).",
  "C08": " Also decided: no shared (package-level) hash object in common/ntor; append to an input slice and io.Writer.Write of it do not count as modifying the input.",
- "C10": " Also decided: meek's carry-over buffer is nil or non-empty between calls (the invariant behind panic(\"empty read buffer\"), formerly excluded); the obfs4 leftover flag is cleared whenever the read is skipped (C01.R5/R6 imported as RS5/RS6).",
- "C12": " Also decided: both worklists of genTables are provably empty when the tables are published and every removed index is settled; csrand.Intn/Float64 are exactly Rand.Intn/Float64 of the package generator built over the CSPRNG source (range by delegation; a hand-rolled conversion is undecided).",
+ "C10": " Also decided: meek's carry-over buffer is nil or non-empty between calls (the invariant behind panic(\"empty read buffer\"), formerly excluded); the obfs4 leftover flag is cleared whenever the read is skipped (C01.R5/R6 imported as RS5/RS6). C12's lock rule for the shared distributions (R9) and meek's bounded response read (io.ReadAll only over io.LimitReader(.., <= 65536)) are part of this property too.",
+ "C12": " Also decided: both worklists of genTables are provably empty when the tables are published and every removed index is settled; csrand.Intn/Float64 are exactly Rand.Intn/Float64 of the package generator built over the CSPRNG source (range by delegation; a hand-rolled conversion is undecided). The alias tables are built from weight*n/(sum of all weights) with the sum taken on every path.",
  "C13": " Also decided: nothing but SetBit modifies the exponent between load and Exp; the handshake receive buffer is written only by the magic scanner with the bytes of its own read; the handshake itself reads its fixed-size fields with io.ReadFull; no shared hash state.",
  "C14": " Also decided: mac()/kdf use call-local hash objects (no package-level hash shared by concurrent handshakes).",
- "C15": " Also decided (rules shared with obfs4): the bytes that follow the server response are kept (Next(n)) and are parsed before the data phase blocks on the network again (defect F8 was found here and fixed); Read never replaces a pending fatal error by the decoded buffer's result; serialize reports success only through the file write; no shared hash state.",
- "C16": " Also decided: the carry-over buffer of Read is nil or non-empty between calls (every store, every consuming site).",
+ "C15": " Also decided (rules shared with obfs4): the bytes that follow the server response are kept (Next(n)) and are parsed before the data phase blocks on the network again (defect F8 was found here and fixed); Read never replaces a pending fatal error by the decoded buffer's result; serialize reports success only through the file write; no shared hash state. C13's UniformDH structure rules (fixed-width 192-byte public value and shared secret) are imported as RU1.",
+ "C16": " Also decided: the carry-over buffer of Read is nil or non-empty between calls (every store, every consuming site). Every response body is read through io.ReadAll(io.LimitReader(.., <= 65536)) and roundTrip reports success only with what that read returned; no transport Write retains the caller's slice.",
  "C18": " Also decided: every field of the persisted state that the load path reads is filled in by both writers (generation and explicit arguments); the identity key is derived by plain base-point multiplication at generation and at reload (NewKeypair(false) / KeypairFromHex).",
- "C19": " io.CopyBuffer counts as io.Copy only with a staging buffer allocated by the copier goroutine itself.",
+ "C19": " io.CopyBuffer counts as io.Copy only with a staging buffer allocated by the copier goroutine itself. The handler event channel is unbuffered; start/finish pairing is judged over +1/-1 events on it (helper calls or direct sends); no transport Write keeps the caller's slice beyond the call (io.Copy reuses its buffer).",
  "C20": " Also decided: the scrubbing switch is written only by log.Init, with its own argument, on every successful path.",
 }
 
